@@ -109,7 +109,9 @@ static cbor_item_t* leaf(void) {
     }
     case 10: return cbor_build_bool(vh_randn(2));
     case 11: return vh_randn(2) ? cbor_new_null() : cbor_new_undef();
-    case 12: return cbor_build_ctrl((uint8_t)(20 + vh_randn(4)));
+    case 12:
+      if (vg_wild_half && !vh_randn(3)) { uint8_t c = (uint8_t)vh_rand(); if (c >= 24 && c < 32) c = (uint8_t)(c - 24); return cbor_build_ctrl(c); } /* unassigned simple values: outside C03's domain, legal items otherwise */
+      return cbor_build_ctrl((uint8_t)(20 + vh_randn(4)));
     case 13: return cbor_build_float2(half_value());
     case 14: {
       uint32_t u = (uint32_t)vh_rand();
